@@ -48,12 +48,18 @@ def build(rng, enz):
             feats.append(Feat(1, "u92", (), ((fs - 1, fs + 2, -1),)))                           # one before the start
         if L >= 4 and fs + L <= n and rng.random() < 0.5:
             feats.append(Feat(2, "u93", (), ((fs, fs + 2, 1), (fs + 2, fs + L, 1))))            # abutting parts
-        rec = impl.mk_record(CRec(oid, wd, feats, []))
+        if L >= 4 and fs + L <= n and rng.random() < 0.5:
+            a = rng.randrange(fs, fs + L - 3)
+            b = rng.randint(a + 1, fs + L - 2)
+            c2 = rng.randint(b + 1, fs + L - 1)
+            parts = [(a, b, rng.choice([1, -1])), (c2, fs + L, rng.choice([1, -1, 0]))]   # parts on different strands
+            feats.append(Feat(3, "u94", (), tuple(parts if rng.random() < 0.5 else parts[::-1])))
+        # the inputs are placed by the harness's own rotation (never by the operator under test: a case must not
+        # depend on the tree that generated it)
         k1 = rng.randrange(n)
-        rot = rec >> k1
         if rng.random() < 0.3:
-            rot = rot >> rng.randrange(n)
-        c = impl.canon_record(rot)
+            k1 = (k1 + rng.randrange(n)) % n
+        c = CRec(oid, gen.rot(wd, k1), gen.rotate_feats(feats, n, k1), [])
         # a location running past the end is what `>>` writes; a GenBank file spells the same feature as a join
         # across the origin: use both spellings
         cf = []
